@@ -2,6 +2,7 @@ package rules
 
 import (
 	"go/token"
+	"go/types"
 	"strings"
 
 	"golang.org/x/tools/go/ssa"
@@ -68,7 +69,29 @@ func runC14(e *Env) {
 	// the cycle test must see every edge: from every addEdge call, each path to a
 	// success return passes a (later) cycle test
 	okSeen := true
-	for _, ci := range ir.CallsIn(setup, func(c *ssa.CallCommon) bool { return c.StaticCallee() != nil && c.StaticCallee().Name() == "addEdge" }) {
+	// the points of the refusing setup at which edges come into being: its own edge
+	// sites, or its calls of the function that loops over the dependencies
+	gr := e.graphRoles()
+	var edgePoints []ssa.Instruction
+	for _, b := range setup.Blocks {
+		for _, in := range b.Instrs {
+			if setup == gr.EdgeLoop && gr.isEdgeSite(in) {
+				edgePoints = append(edgePoints, in)
+			}
+			if c, ok := in.(*ssa.Call); ok && setup != gr.EdgeLoop && c.Call.StaticCallee() != nil {
+				for _, f := range e.staticClosure(c.Call.StaticCallee()) {
+					if f == gr.EdgeLoop {
+						edgePoints = append(edgePoints, in)
+						break
+					}
+				}
+			}
+		}
+	}
+	if len(edgePoints) == 0 {
+		r.Unknown("graph setup: where edges are added", e.Pos(setup.Pos()), "no edge site found in "+ShortFn(setup))
+	}
+	for _, ci := range edgePoints {
 		bad, _ := ir.Bypass(ci, nil, ir.PathQuery{
 			Stop: func(in ssa.Instruction) bool {
 				c, ok := in.(*ssa.Call)
@@ -130,80 +153,160 @@ func runC14(e *Env) {
 	c14Kahn(e, hasCycle, e.graphRoles().AddEdge)
 
 	r.Rule("C14.graph-first", "DCS", "Agent.Run: nothing before the graph was built successfully", 5)
-	run := e.Fn("internal/agent", "(*Agent).Run")
-	asetup := e.Fn("internal/agent", "(*Agent).setup")
-	sg := e.Fn("internal/agent", "(*Agent).setupGraph")
-	if run == nil || asetup == nil || sg == nil {
+	a := e.agentRoles()
+	run := a.Run
+	if run == nil {
 		return
 	}
-	agentOrdered(e, run, "a.setup()==nil", func(lits []ir.NLit) bool {
-		for _, l := range lits {
-			if l.Kind == "cmp" && l.Op == token.EQL && ir.IsNilConst(l.Y) {
-				if c, ok := ir.Resolve(l.X).(*ssa.Call); ok && c.Call.StaticCallee() == asetup {
-					return true
-				}
-			}
-		}
-		return false
-	}, []string{").checkPreconditions", ").dryRun", ").Schedule", ").checkIsAlreadyRunning", ").setupDatabase", ").setupSocketServer", "HistoryStore.Write", "HistoryStore.Open"},
-		"happens although the dependency graph was not (successfully) built: a refused DAG would evaluate preconditions, probe, record or execute")
-	// setup returns setupGraph's result; setupGraph returns the constructor's error
-	okRet := false
-	for _, b := range asetup.Blocks {
-		for _, in := range b.Instrs {
-			if rt, ok := in.(*ssa.Return); ok {
-				for _, v := range RetVals(rt, 0) {
-					if c, isC := ir.Resolve(v).(*ssa.Call); isC && c.Call.StaticCallee() == sg {
-						okRet = true
-					}
-				}
-			}
-		}
+	agentOrdered(e, "the graph was built", a.PassedGuard(apiNewGraph),
+		[]string{apiEval, apiProbe, apiSchedule, apiHistory, apiServe},
+		"happens although the dependency graph was not (successfully) built: a refused DAG would evaluate preconditions, probe, record or execute", nil)
+	// The constructor's refusal reaches Run: starting from the functions that call
+	// the constructor, every function on the way up to Run hands the error on (a
+	// return value that is the callee's result, or the callee's whole result tuple).
+	holders := a.Holders(apiNewGraph)
+	if len(holders) == 0 {
+		r.Unknown("the agent's graph construction", e.Pos(run.Pos()), "no function of the agent package calls a graph constructor")
+		return
 	}
-	r.Check(okRet, "Agent.setup: returns setupGraph()'s error", e.Pos(asetup.Pos()), "an error of the graph construction is not returned by the agent's setup")
-	for _, f := range []*ssa.Function{sg, e.FnQuiet("internal/agent", "(*Agent).setupGraphForRetry")} {
-		if f == nil {
-			continue
-		}
-		for _, ci := range ir.CallsIn(f, func(c *ssa.CallCommon) bool {
-			return c.StaticCallee() != nil && strings.HasPrefix(c.StaticCallee().Name(), "NewExecutionGraph")
-		}) {
-			var errV ssa.Value
-			for _, ref := range *ci.(ssa.Value).Referrers() {
-				if ex, ok := ref.(*ssa.Extract); ok && ex.Index == 1 {
-					errV = ex
+	handsOn := func(f *ssa.Function, call *ssa.Call) bool {
+		for _, b := range f.Blocks {
+			for _, in := range b.Instrs {
+				rt, ok := in.(*ssa.Return)
+				if !ok || len(rt.Results) == 0 {
+					continue
 				}
-			}
-			// the error is returned on its non-nil edge and the graph stored only on the nil edge
-			okE := false
-			for _, b := range f.Blocks {
-				for _, in := range b.Instrs {
-					if rt, ok := in.(*ssa.Return); ok {
-						for _, v := range RetVals(rt, 0) {
-							if ir.Resolve(v) == errV {
-								okE = true
-							}
+				for _, v0 := range RetVals(rt, len(rt.Results)-1) {
+					for _, rv := range phiLeaves(v0) {
+						if ex, isE := rv.(*ssa.Extract); isE && ex.Index == ex.Tuple.Type().(*types.Tuple).Len()-1 {
+							rv = ex.Tuple
+						}
+						if rv == ssa.Value(call) {
+							return true
 						}
 					}
 				}
 			}
-			okG := true
-			for _, ev := range e.C.FieldStores(f, "graph") {
-				if len(ev.Via) > 0 {
-					continue
-				}
-				g := false
-				for _, l := range e.DCS(ev.Site) {
-					if l.Kind == "cmp" && l.Op == token.EQL && ir.IsNilConst(l.Y) && ir.Resolve(l.X) == errV {
-						g = true
-					}
-				}
-				if !g {
-					okG = false
+		}
+		return false
+	}
+	seen := map[*ssa.Function]bool{}
+	var climb func(f *ssa.Function, depth int)
+	climb = func(f *ssa.Function, depth int) {
+		if seen[f] || f == run || depth > 6 {
+			return
+		}
+		seen[f] = true
+		for _, ci := range e.StaticCallSites(f) {
+			caller := ci.Parent()
+			if !a.inPkg(caller) || len(a.Does(ci.Common(), []string{apiNewGraph})) == 0 {
+				continue
+			}
+			call, isC := ci.(*ssa.Call)
+			if caller == run {
+				continue // judged by the ordering rule above: Run goes on only when this call returned nil
+			}
+			r.Check(isC && handsOn(caller, call), shortName(caller)+": returns the error of the graph construction ("+shortName(f)+")", e.InstrPos(ci),
+				"an error of the graph construction is not handed on to the agent's Run")
+			climb(caller, depth+1)
+		}
+	}
+	for _, f := range holders {
+		climb(f, 0)
+	}
+	// the constructor's result: the error is returned (or the whole result is), and
+	// the graph is stored into the agent only where the paired error is nil
+	var paired func(g, er ssa.Value, depth int) bool
+	var producer func(c *ssa.Call, depth int) bool
+	producer = func(c *ssa.Call, depth int) bool {
+		g := c.Call.StaticCallee()
+		if g == nil || depth > 4 {
+			return false
+		}
+		if strings.Contains(ir.FuncName(g), apiNewGraph) {
+			return true
+		}
+		if !a.inPkg(g) || g.Signature.Results().Len() != 2 {
+			return false
+		}
+		// a wrapper: every return hands on a producer's whole result, a producer's
+		// (graph, error) pair, or (nil, error)
+		n := 0
+		for _, b := range g.Blocks {
+			rt, ok := b.Instrs[len(b.Instrs)-1].(*ssa.Return)
+			if !ok {
+				continue
+			}
+			n++
+			if len(rt.Results) != 2 {
+				return false
+			}
+			if ir.IsNilConst(ir.Resolve(rt.Results[0])) {
+				continue
+			}
+			if !paired(rt.Results[0], rt.Results[1], depth+1) {
+				return false
+			}
+		}
+		return n > 0
+	}
+	paired = func(g, er ssa.Value, depth int) bool {
+		g, er = ir.Resolve(g), ir.Resolve(er)
+		if depth > 6 {
+			return false
+		}
+		if pg, ok := g.(*ssa.Phi); ok {
+			pe, ok2 := er.(*ssa.Phi)
+			if !ok2 || pe.Block() != pg.Block() {
+				return false
+			}
+			for i := range pg.Edges {
+				if !paired(pg.Edges[i], pe.Edges[i], depth+1) {
+					return false
 				}
 			}
-			r.Check(okE && okG, shortName(f)+": the constructor's error is returned and the graph kept only on success", e.InstrPos(ci),
-				"a refusal of the graph constructor is swallowed (the agent would go on with a nil or unchecked graph)")
+			return true
 		}
+		xg, ok1 := g.(*ssa.Extract)
+		xe, ok2 := er.(*ssa.Extract)
+		if !ok1 || !ok2 || xg.Tuple != xe.Tuple || xg.Index != 0 || xe.Index != 1 {
+			return false
+		}
+		c, ok := xg.Tuple.(*ssa.Call)
+		return ok && producer(c, depth+1)
+	}
+	nStores := 0
+	graphField := "graph"
+	if at := a.pkg.Type("Agent"); at != nil {
+		if st, ok := at.Type().Underlying().(*types.Struct); ok {
+			for i := 0; i < st.NumFields(); i++ {
+				if strings.HasSuffix(ir.NamedType(st.Field(i).Type()), "scheduler.ExecutionGraph") {
+					graphField = st.Field(i).Name()
+				}
+			}
+		}
+	}
+	for _, f := range e.RepoFuncsSorted() {
+		if !a.inPkg(f) {
+			continue
+		}
+		for _, ev := range e.C.FieldStores(f, graphField) {
+			if len(ev.Via) > 0 || !strings.HasSuffix(ir.NamedType(ev.Root.Type()), "agent.Agent") {
+				continue
+			}
+			nStores++
+			okG := false
+			for _, l := range e.DCS(ev.Site) {
+				if l.Kind == "cmp" && l.Op == token.EQL && ir.IsNilConst(l.Y) && paired(ev.Val, l.X, 0) {
+					okG = true
+				}
+			}
+			r.Check(okG, "agent: the graph is kept only when its constructor returned no error", e.InstrPos(ev.Site),
+				"a refusal of the graph constructor is swallowed (the agent would go on with a nil or unchecked graph)",
+				e.FactsStr("dominating conditions: ", e.DCS(ev.Site)))
+		}
+	}
+	if nStores == 0 {
+		r.Unknown("agent: the store of the graph", e.Pos(run.Pos()), "no store to Agent.graph found")
 	}
 }
